@@ -47,8 +47,8 @@ Scope: race-freedom is *structural* here — the program of `a_row` is typed `Sl
 model already says that iteration `a_row` touches `jc[a_row, …]` only.  A kernel that wrote into
 another row's slab (`jc[b_row, a_row, …]`, a `prange` over `t`, …) is outside what this theorem can
 see; that the source really indexes `jc[a_row, b_row, i, j]` inside `prange(a_row)` is re-checked on
-every run by `kernel_source_as_modelled` below (a `decide` over the statements extracted from
-`libinfo.pyx`), and the compiled code is exercised by the differential thread sweeps (1…16 threads)
+every run by `kernel_source_as_modelled` below (a `decide` over the normalised loop nest, write
+and guards extracted from `libinfo.pyx`), and the compiled code is exercised by the differential thread sweeps (1…16 threads)
 of `harness/props/c18.py`. -/
 theorem jc_interleaving (a b : Arr) (e : Exec Slab) (h : IsInterleaving (progs a b) e) :
     run e (fun _ => zeroSlab) = run (seqExec a b) (fun _ => zeroSlab) :=
@@ -110,48 +110,42 @@ theorem bincount1_guard_sound (a b : Arr) (nA nB : Int) (h : Tab2) (hFa : 0 < a.
     a.T = b.T ∧ ∀ w ∈ writes1 a b, 0 ≤ w.2.1 ∧ w.2.1 < nA ∧ 0 ≤ w.2.2 ∧ w.2.2 < nB :=
   bincount2d_guard_sound_core a b nA nB h hFa hFb hk
 
-/-- the statements of the two kernels as extracted from `libinfo.pyx` on this run
-(`Model/Generated/InfoKernel.lean`, regenerated by `harness/props/c18.py translate`) are exactly the
-ones `Model.Info` mirrors: the six asserts in this order, `prange` over `a_row` outermost, the loops
-over `b_row` and `t` inside it, the reads `a[t, a_row]`, `b[t, b_row]` and the single write
-`jc[a_row, b_row, i, j] += 1` in the innermost loop (so iteration `a_row` owns slab `jc[a_row, …]`);
-for the 1-D kernel the guards and `H[i, j] += 1`; both fused types list the eight integer dtypes.
-Any edit of these statements makes this obligation fail (the check then escalates). -/
+/-- the NORMALISED structure of the two kernels, extracted from `libinfo.pyx` on this run
+(`Model/Generated/InfoKernel.lean`, regenerated by `harness/props/c18.py translate`: comments,
+docstrings, assert messages and scalar declarations dropped, locals renamed canonically — array
+parameters `A`, `B`, state counts `NA`, `NB`, output `OUT`, loop variables `L0 L1 L2` by nesting
+depth — temporaries and hoisted bounds inlined, counting `while` loops read as `range` loops) is the
+one `Model.Info` mirrors:
+* `matrix_bincount2d`: the outermost loop is the `prange` over `a.shape[1]`, inside it the loops over
+  `b.shape[1]` and `a.shape[0]`; there is exactly one write, in the innermost loop,
+  `jc[prange index, inner index, a[t, prange index], b[t, inner index]] += 1` (iteration `a_row` owns the
+  slab `jc[a_row, …]`); the guards contain the six modelled ones; the output is `np.zeros` of `uint32`
+  with shape `(a.shape[1], b.shape[1], n_a, n_b)` and is what is returned; nothing unrecognised;
+* `bincount2d`: one loop over `a.shape[0]`, the single write `H[a[t], b[t]] += 1`, the length guard
+  and the four range guards under `a.shape[0] > 0`, `np.zeros((n_a, n_b), uint32)`;
+* both fused types list the eight integer dtypes.
+Renaming locals, deleting unused declarations, reordering declarations or rewriting the frame loop
+as a counting `while` leave this structure unchanged; a different write cell, a dropped guard,
+`np.empty`, or a `prange` on another loop make the obligation fail (the check then escalates). -/
 theorem kernel_source_as_modelled :
-    Ens.Info.Gen.matrixBincount2dBody =
-  ["4|assert a.shape[1] < 2**32, \"No support for trajectories longer than 2^32\"",
-   "4|assert a.shape[0] == b.shape[0], 'Feature arrays a and b must match in length'",
-   "4|assert a.max() < n_a, \"States indices must be contiguous.\"",
-   "4|assert b.max() < n_b, \"States indices must be contiguous.\"",
-   "4|assert a.min() >= 0, \"States indices must be non-negative.\"",
-   "4|assert b.min() >= 0, \"States indices must be non-negative.\"",
-   "4|cdef np.ndarray[np.uint32_t, ndim=4] jc = np.zeros(",
-   "8|(a.shape[1], b.shape[1], n_a, n_b), dtype=np.uint32)",
-   "4|cdef long a_row, b_row, i, j, t",
-   "4|cdef long n_features = a.shape[1]",
-   "4|for a_row in prange(a.shape[1], nogil=True):",
-   "8|for b_row in range(b.shape[1]):",
-   "12|for t in range(a.shape[0]):",
-   "16|i = a[t, a_row]",
-   "16|j = b[t, b_row]",
-   "16|jc[a_row, b_row, i, j] += 1",
-   "4|return jc"] ∧
-    Ens.Info.Gen.bincount2dBody =
-  ["4|cdef np.ndarray[np.uint32_t, ndim=2] H = np.zeros((n_a, n_b),",
-   "54|dtype=np.uint32)",
-   "4|cdef unsigned int i, j, t",
-   "4|assert a.shape[0] == b.shape[0]",
-   "4|if a.shape[0] > 0:",
-   "8|assert a.max() < n_a and b.max() < n_b, \"States indices must be contiguous.\"",
-   "8|assert a.min() >= 0 and b.min() >= 0, \"States indices must be non-negative.\"",
-   "4|for t in range(a.shape[0]):",
-   "8|i = a[t]",
-   "8|j = b[t]",
-   "8|H[i, j] += 1",
-   "4|return H"] ∧
+    (Ens.Info.Gen.matrixBincount2d.loops =
+        [("prange", "A.shape[1]"), ("range", "B.shape[1]"), ("range", "A.shape[0]")] ∧
+     Ens.Info.Gen.matrixBincount2d.writes = ["3|OUT[L0,L1,A[L2,L0],B[L2,L1]]+=1"] ∧
+     (∀ g ∈ ["A.shape[1]<2**32", "A.shape[0]==B.shape[0]", "A.max()<NA", "B.max()<NB", "A.min()>=0",
+              "B.min()>=0"], g ∈ Ens.Info.Gen.matrixBincount2d.guards) ∧
+     Ens.Info.Gen.matrixBincount2d.alloc = ["zeros", "(A.shape[1],B.shape[1],NA,NB)", "np.uint32"] ∧
+     Ens.Info.Gen.matrixBincount2d.ret = "OUT" ∧
+     Ens.Info.Gen.matrixBincount2d.extras = []) ∧
+    (Ens.Info.Gen.bincount2d.loops = [("range", "A.shape[0]")] ∧
+     Ens.Info.Gen.bincount2d.writes = ["1|OUT[A[L0],B[L0]]+=1"] ∧
+     (∀ g ∈ ["A.shape[0]==B.shape[0]", "A.shape[0]>0=>A.max()<NA", "A.shape[0]>0=>B.max()<NB",
+              "A.shape[0]>0=>A.min()>=0", "A.shape[0]>0=>B.min()>=0"], g ∈ Ens.Info.Gen.bincount2d.guards) ∧
+     Ens.Info.Gen.bincount2d.alloc = ["zeros", "(NA,NB)", "np.uint32"] ∧
+     Ens.Info.Gen.bincount2d.ret = "OUT" ∧
+     Ens.Info.Gen.bincount2d.extras = []) ∧
     Ens.Info.Gen.fused =
-  [("INTEGRAL_1D_ARRAY", ["int8", "int16", "int32", "int64", "uint8", "uint16", "uint32", "uint64"]),
-   ("INTEGRAL_2D_ARRAY", ["int8", "int16", "int32", "int64", "uint8", "uint16", "uint32", "uint64"])] := by
+      [("INTEGRAL_1D_ARRAY", ["int8", "int16", "int32", "int64", "uint8", "uint16", "uint32", "uint64"]),
+       ("INTEGRAL_2D_ARRAY", ["int8", "int16", "int32", "int64", "uint8", "uint16", "uint32", "uint64"])] := by
   decide
 
 /-! ### mutual information -/
